@@ -534,6 +534,7 @@ def plan_uvl_peer(seed, tier):
             cfg = gen.default_cfg(rng, "uvl", tier)
             cfg["nonascii_values"] = rng.random() < 0.2
             cfg["p_attr"] = rng.choice([0.0, 0.3, 0.7])
+            cfg["agg1"] = True      # len / floor / ceil and one-argument sum / avg
             ref = gen.gen_model(rng, "uvl", pool, cfg)
             text, info = peers.emit_uvl(ref, rng)
             path = b.path("uvl")
